@@ -108,7 +108,7 @@ Qed.
 Lemma parse_title_suf : forall z t z', parse_title upper z = Ok (t, z') -> suf (z_toks z') (z_toks z).
 Proof. intros z t z' H. unfold parse_title in H. inv_ok. fwd. suf_chain. Qed.
 
-Lemma link_loop_suf : forall fuel z v r z', link_loop fuel z v = Ok (r, z') -> suf (z_toks z') (z_toks z).
+Lemma link_loop_suf : forall fuel z v r z', link_loop upper fuel z v = Ok (r, z') -> suf (z_toks z') (z_toks z).
 Proof.
   induction fuel as [|f IH]; intros z v r z' H; simpl in H; [discriminate|].
   inv_ok; try apply suf_refl; apply IH in H; fwd; suf_chain.
